@@ -102,7 +102,7 @@ class C05:
         "pairs stay within one document family; calls on an edit (or its ancestors) while that edit's own edits() "
         "iterator is open are caller misuse and are not generated",
         "the canonical serialisation (class, from-path, to-path, final cost, validity, children in edits() order) is "
-        "what 'the same script' means; rendered text is not compared",
+        "what 'the same script' means; plain renderings are compared with the reference rendering, coloured ones are not",
         "independent runs share a worker process; process-global state graphtage mutates (shared printer flags, "
         "sys.std* wrappers, tqdm registry, ANSI context stack) is put back between runs",
     ]
